@@ -10,3 +10,8 @@ class UserFloatish(jt.AbstractDtype):
 
 class UserPattern(jt.AbstractDtype):
     dtypes = [re.compile(r"u?int(8|32)$"), "bool"]
+
+
+class UserBroad(jt.AbstractDtype):
+    """a broader pattern category (used as the outer part of nested annotations)"""
+    dtypes = [re.compile(r"u?int(8|32)$"), "bool", "float32", re.compile(r"float(16|64)$")]
